@@ -14,12 +14,19 @@ PAYLOAD = ['$', '#', '{', '}', '&', '_', '%', '^', '\\', '~', '\\\\', '\\{', '\\
 SPECIALS = set('$#{}&_%^\\')
 
 
-def mask_math(doc):
+def mask_math(doc, broken=None):
+    """Math spans are written verbatim by design; they are replaced by a stand-in before rendering.  What is checked about
+    them: the verbatim text must itself be a closed math region for LaTeX, i.e. its closing '$' is not escaped by a
+    backslash in front of it (else document text has opened math mode that never closes)."""
     used = 0
     stack = [doc]
     while stack:
         t = stack.pop()
         if type(t).__name__ == 'Math':
+            src = t.content
+            inner = src.strip('$')
+            if broken is not None and (len(inner) - len(inner.rstrip('\\'))) % 2 == 1:
+                broken.append(src)
             t.content = chr(0xE000 + used % 6400)
             used += 1
         ch = t.children
@@ -41,7 +48,8 @@ def check_case(case):
     try:
         with renderers.make('LaTeX') as r:
             doc = Document(text)
-            n_math = mask_math(doc)
+            broken_math = []
+            n_math = mask_math(doc, broken_math)
             out = r.render(doc)
             skeleton.neutralise(doc, keep=('Math',))
             out_neutral = r.render(doc)
@@ -54,6 +62,8 @@ def check_case(case):
     except Exception as exc:
         return Out(skip='raised ' + exc_sig(exc))
     events, problems = latexscan.scan(out)
+    if broken_math:
+        problems = [('math-region-never-closes', 'verbatim math %r ends in an escaped dollar' % broken_math[0][:40])] + list(problems)
     nt = ('\\verb' in out or 'lstlisting' in out or any(('\\' + c) in out for c in '$#{}&_%^') or 'textbackslash' in out)
     labels = ()
     if SPECIALS & set(text):
